@@ -212,6 +212,7 @@ CHECKS["C03"] = {
               A("nonce", "./checks/c03", "TestC03Nonce", budget={"quick": 60, "thorough": 600}),
               A("expiry", "./checks/c03", "TestC03Expiry", budget={"quick": 60, "thorough": 600}),
               A("noauth", "./checks/c03", "TestC03NoAuth", nshards=1, budget={"quick": 60, "thorough": 60}),
+              A("two-servers", "./checks/c03", "TestC03TwoServers", nshards=1, budget={"quick": 60, "thorough": 60}),
               A("unsigned", "./checks/c03", "TestC03Unsigned", nshards=1, budget={"quick": 60, "thorough": 60}),
               A("tcp", "./checks/c03", "TestC03TCP", nshards=2, budget={"quick": 60, "thorough": 60})],
 }
